@@ -221,11 +221,15 @@ void src_search<T, ES>::tune_parameters()
     vitaINFO << "Population size set to " << env.individuals;
   }
 
-  if (!constrained.dss.has_value() && typeid(this->vs_.get()) == typeid(dss))
+  // The active validator is identified by the dynamic type of the strategy
+  // object (`typeid(this->vs_.get())` is the static type of the pointer).
+  const auto &vs(*this->vs_);
+
+  if (!constrained.dss.has_value() && typeid(vs) == typeid(dss))
     env.dss = dflt.dss;
 
   if (!constrained.validation_percentage.has_value()
-      && typeid(this->vs_.get()) == typeid(holdout_validation))
+      && typeid(vs) == typeid(holdout_validation))
     env.validation_percentage = dflt.validation_percentage;
 
   Ensures(env.is_valid(true));
